@@ -139,6 +139,8 @@ def run_iso(d, tier, props=None):
     vcopy, rcopy = base + "/verif", base + "/repo"
     sh("cp -a %s %s" % (ROOT, vcopy))
     sh("rm -rf %s/.work/C* %s/replay/*" % (vcopy, vcopy))
+    # the copy is taken from a tree that may be mid-edit: run the committed machinery
+    sh("git -C %s checkout -q -- ." % vcopy)
     sh("git -C %s worktree add -q --detach %s HEAD" % (REPO, rcopy))
     results = {}
     try:
